@@ -10,7 +10,10 @@ use octo_squirrel::codec::QuicStream;
 use octo_squirrel::config::ServerConfig;
 use octo_squirrel::protocol::Protocol;
 use quinn::crypto::rustls::QuicServerConfig;
+#[cfg(not(octo_squirrel_verif))]
 use tokio::net::TcpListener;
+#[cfg(octo_squirrel_verif)]
+use octo_squirrel::verif::net::TcpListener;
 use tokio::task::JoinHandle;
 use tokio_rustls::TlsAcceptor;
 use tokio_rustls::rustls;
